@@ -56,6 +56,7 @@ known = [
  {"property": "C11", "match": r"^bounded:nsi_cross_average_path_length/(definition|arg-symmetry)$", "what": "nsi_cross_average_path_length sums the node weights of list 1 for both factors (W_P*W_P instead of W_P*W_Q): ([0,5],[1,2,4]) -> 3.3306 but ([1,2,4],[0,5]) -> 1.5742 on the undirected test network; the suite pins 3.3306, so it cannot be repaired"},
  {"property": "C03", "match": r"^bounded:closeness/directed-out-distance$", "what": "closeness() on directed networks calls igraph with mode=ALL: directed 3-cycle gives [1,1,1] instead of 2/3 (and disagrees with closeness(link_attribute) at unit lengths)"},
  {"property": "C03", "match": r"^bounded:link_betweenness/directed-link-covered$", "what": "link_betweenness on directed networks assumes igraph's undirected edge order: directed 8-cycle, link 7->0 gets 0"},
+ {"property": "C03", "match": r"^bounded:nsi_arenas_betweenness/per-component-consistency-twinness$", "what": "nsi_arenas_betweenness(stopping_mode='twinness') indexes the whole-network twinness matrix with component-local indices: isolated node 0 + path 1-2-3 gives [0, 1.2857, 0, 3.0] instead of [0, 1.2857, 0, 1.2857]"},
  {"property": "C05", "match": r"^bounded:(SpatialNetwork\.|GeoNetwork\.)?save_load\[gml\]/node_weights$", "what": "igraph's GML writer strips '_' from attribute names: node_weight_nsi is written as nodeweightnsi and Load returns unit (or cos-lat) weights"},
  {"property": "C05", "match": r"^bounded:adjacency_setter/known29-N-change-node-weights$", "what": "adjacency.setter can change N while node_weights keep their old length (finding #29)"},
  {"property": "C07", "match": r"^bounded:RecurrenceNetwork/missing/(rqa-size-consistent-with-R|setter/adjacency-is-R-without-diagonal)$", "what": "RecurrenceNetwork(missing_values=True) with a NaN state: self.N becomes the order of the reduced network while R keeps its full order (recurrence_rate() 0.625 instead of 0.4; first set_* call uses the wrong diagonal stride)"},
